@@ -23,6 +23,7 @@ AB = "miasm/core/asmblock.py"
 LEVEL_TEXT = ("Static sibling-consistency and ordering rules over Jitter's breakpoint APIs, JitCore.run_at, the "
               "callback table, the disassembler's split exit and the two C dispatch loops (clang AST). Decides these "
               "necessary clauses on every path; runs no emulation.")
+LEVEL_TEXT += ' Also: engine options rebound by a disassembler method are restored on exit (the split collection shared with the translator stays the same object).'
 ASSUMPTIONS = ["CPython ast; clang 14 AST for Jitgcc.c/Jitllvm.c", "breakpoints are kept in Jitter.breakpoints_handler "
                "(a CallbackHandler) - re-derived from Jitter.__init__"]
 
